@@ -111,6 +111,36 @@ AsMin(I) == IF I.sense = "max" THEN [I EXCEPT !.sense = "min", !.obj = PNeg(@)] 
 PSumSet(S, F(_)) == FoldSet(LAMBDA c, acc : PAdd(acc, F(c)), PZero, S)
 Sq(p) == PMul(p, p)
 
+\* constructive reference of the penalty methods (fresh parameter ids chosen by `pid`) and of instantiation
+Penalty(I, pid) == [I EXCEPT !.obj = PAdd(@, PSumSet(I.active, LAMBDA c : PMul(PVar(pid[c]), Sq(I.cons[c].f)))),
+                             !.active = {},
+                             !.removed = [c \in DOMAIN I.cons |-> IF c \in DOMAIN @ THEN @[c] ELSE [reason |-> "penalty_method", rparams |-> <<>>]],
+                             !.parameters = [p \in { pid[c] : c \in I.active } |-> [name |-> <<"penalty_weight">>, subs |-> << CHOOSE c \in I.active : pid[c] = p >>, params |-> <<>>, desc |-> <<>>]]]
+UniformPenalty(I, p) == [I EXCEPT !.obj = PAdd(@, PMul(PVar(p), PSumSet(I.active, LAMBDA c : Sq(I.cons[c].f)))),
+                                  !.active = {},
+                                  !.removed = [c \in DOMAIN I.cons |-> IF c \in DOMAIN @ THEN @[c] ELSE [reason |-> "uniform_penalty_method", rparams |-> <<>>]],
+                                  !.parameters = [q \in {p} |-> [name |-> <<"uniform_penalty_weight">>, subs |-> <<>>, params |-> <<>>, desc |-> <<>>]]]
+WithParameters(P, pv) == [P EXCEPT !.obj = PPartial(@, pv),
+                                   !.cons = [c \in DOMAIN @ |-> IF c \in P.active THEN [@[c] EXCEPT !.f = PPartial(@, pv)] ELSE @[c]],
+                                   !.parameters = [q \in {} |-> <<>>]]
+\* a raw message for an abstract instance (functions as "polynomial" messages); AbsI(RawOf(I)) = I
+PolyMsg(p) == [kind |-> "polynomial", terms |-> [ i \in DOMAIN Terms(p) |-> [ids |-> Terms(p)[i].ids, c |-> Terms(p)[i].c] ]]
+SortedIdSeq(S) == SortSeq(SetToSeq(S), LAMBDA a, b : a < b)
+RawCon(I, c) == [id |-> c, eq |-> I.cons[c].eq, f |-> << PolyMsg(I.cons[c].f) >>, name |-> I.cons[c].meta.name, subs |-> I.cons[c].meta.subs,
+                 params |-> I.cons[c].meta.params, desc |-> I.cons[c].meta.desc]
+RawOf(I) ==
+  [ sense |-> I.sense,
+    vars |-> [ k \in DOMAIN SortedIdSeq(DOMAIN I.vars) |-> LET v == SortedIdSeq(DOMAIN I.vars)[k]  x == I.vars[v] IN
+                 [id |-> v, kind |-> x.kind, bound |-> x.bound, fixed |-> x.fixed, name |-> x.meta.name, subs |-> x.meta.subs, params |-> x.meta.params, desc |-> x.meta.desc] ],
+    objective |-> << PolyMsg(I.obj) >>,
+    constraints |-> [ k \in DOMAIN SortedIdSeq(I.active) |-> RawCon(I, SortedIdSeq(I.active)[k]) ],
+    removed |-> [ k \in DOMAIN SortedIdSeq(DOMAIN I.removed) |-> LET c == SortedIdSeq(DOMAIN I.removed)[k] IN
+                   [c |-> << RawCon(I, c) >>, reason |-> I.removed[c].reason, rparams |-> I.removed[c].rparams] ],
+    deps |-> [ k \in DOMAIN SortedIdSeq(DOMAIN I.deps) |-> << SortedIdSeq(DOMAIN I.deps)[k], PolyMsg(I.deps[SortedIdSeq(DOMAIN I.deps)[k]]) >> ],
+    params |-> I.params, hints |-> I.hints, description |-> <<>>,
+    parameters |-> [ k \in DOMAIN SortedIdSeq(DOMAIN I.parameters) |-> LET p == SortedIdSeq(DOMAIN I.parameters)[k]  x == I.parameters[p] IN
+                      [id |-> p, name |-> x.name, subs |-> x.subs, params |-> x.params, desc |-> x.desc] ] ]
+
 \* natural interval extension of a polynomial over a box  bnd : function id -> interval  (the analysis the slack
 \* conversions describe: per monomial, powers of the variables' bounds multiplied, scaled, summed)
 RECURSIVE MonoHull(_,_)
